@@ -18,6 +18,8 @@ pub enum Op {
     RegUsize { sig: u8, flag: u8, value: usize },
     RegShutdown { sig: u8, status: i32, cond: u8 },
     RegSpy { sig: u8 },
+    /// unregister the k-th action registered so far (if still registered)
+    Unreg { k: u8 },
     Store { flag: u8, v: bool },
     StoreUsize { flag: u8, v: usize },
     Deliver {
@@ -43,6 +45,7 @@ pub fn strategy() -> BoxedStrategy<C15Case> {
         3 => (0u8..7, 0i32..256, 0u8..3).prop_map(|(sig, status, cond)| Op::RegShutdown { sig, status, cond }),
         2 => (0u8..7).prop_map(|sig| Op::RegSpy { sig }),
         3 => (0u8..3, any::<bool>()).prop_map(|(flag, v)| Op::Store { flag, v }),
+        2 => (0u8..12).prop_map(|k| Op::Unreg { k }),
         1 => (0u8..2, any::<usize>()).prop_map(|(flag, v)| Op::StoreUsize { flag, v }),
         6 => (0u8..7, prop::bool::weighted(0.35)).prop_map(|(sig, to_helper)| Op::Deliver { sig, to_helper }),
     ];
@@ -75,7 +78,7 @@ fn child(case: &C15Case, fd: i32) {
     crate::vsched::install();
     OUT_FD.store(fd, Ordering::SeqCst);
     unsafe { libc::atexit(at_exit_marker) };
-    // helper threads: alive for the whole history, each in a short-sleep tick loop; a watcher notices
+    // helper threads: alive for the whole history, each waiting in sigsuspend; a watcher notices
     // when a single thread (rather than the process) has been terminated
     let main_tid = unsafe { libc::syscall(libc::SYS_gettid) } as i32;
     let mut helper_ids: Vec<(libc::pthread_t, i32, usize)> = Vec::new();
@@ -84,13 +87,25 @@ fn child(case: &C15Case, fd: i32) {
         for hi in 0..case.helpers as usize {
             let tx = tx.clone();
             std::thread::spawn(move || {
-                let me = (unsafe { libc::pthread_self() }, unsafe { libc::syscall(libc::SYS_gettid) } as i32, hi);
-                tx.send(me).unwrap();
-                // tick loop: a signal directed at this thread is handled at the latest when the
-                // current short sleep returns, i.e. before two further ticks have been counted
-                loop {
-                    std::thread::sleep(std::time::Duration::from_micros(150));
-                    HELPER_TICKS[hi % 4].fetch_add(1, Ordering::SeqCst);
+                // The helper keeps the history's signals blocked and waits in sigsuspend, which
+                // atomically unblocks them: a signal sent at any moment stays pending until then,
+                // its handler runs inside sigsuspend, and the return from it is the acknowledgement.
+                unsafe {
+                    let mut set: libc::sigset_t = std::mem::zeroed();
+                    libc::sigemptyset(&mut set);
+                    for s in SIGSET.iter() {
+                        libc::sigaddset(&mut set, *s);
+                    }
+                    libc::pthread_sigmask(libc::SIG_BLOCK, &set, std::ptr::null_mut());
+                    // only now may the main thread learn about this helper and signal it
+                    let me = (libc::pthread_self(), libc::syscall(libc::SYS_gettid) as i32, hi);
+                    tx.send(me).unwrap();
+                    let mut empty: libc::sigset_t = std::mem::zeroed();
+                    libc::sigemptyset(&mut empty);
+                    loop {
+                        libc::sigsuspend(&empty);
+                        HELPER_TICKS[hi % 4].fetch_add(1, Ordering::SeqCst);
+                    }
                 }
             });
         }
@@ -103,9 +118,11 @@ fn child(case: &C15Case, fd: i32) {
                 libc::sigfillset(&mut all);
                 libc::pthread_sigmask(libc::SIG_BLOCK, &all, std::ptr::null_mut());
             }
-            let path = format!("/proc/self/task/{}", main_tid);
+            let pid = unsafe { libc::getpid() };
             loop {
-                if !std::path::Path::new(&path).exists() {
+                // signal 0: pure existence test of the main thread (ESRCH once it is gone)
+                let r = unsafe { libc::syscall(libc::SYS_tgkill, pid, main_tid, 0) };
+                if r != 0 && std::io::Error::last_os_error().raw_os_error() == Some(libc::ESRCH) {
                     let m = b"{\"k\":\"main-thread-gone\"}\n";
                     unsafe {
                         libc::write(OUT_FD.load(Ordering::SeqCst), m.as_ptr() as *const _, m.len());
@@ -119,22 +136,26 @@ fn child(case: &C15Case, fd: i32) {
     let bools: Vec<Arc<AtomicBool>> = (0..3).map(|_| Arc::new(AtomicBool::new(false))).collect();
     let us: Vec<Arc<AtomicUsize>> = (0..2).map(|_| Arc::new(AtomicUsize::new(0))).collect();
     let mut spy_id = 0;
+    let mut ids: Vec<signal_hook::SigId> = Vec::new();
     for (i, op) in case.ops.iter().enumerate() {
         let mut res = "ok";
         match op {
             Op::RegFlag { sig, flag } => {
-                if signal_hook::flag::register(SIGSET[*sig as usize % 7], bools[*flag as usize % 3].clone()).is_err() {
-                    res = "err";
+                match signal_hook::flag::register(SIGSET[*sig as usize % 7], bools[*flag as usize % 3].clone()) {
+                    Ok(id) => ids.push(id),
+                    Err(_) => res = "err",
                 }
             }
             Op::RegUsize { sig, flag, value } => {
-                if signal_hook::flag::register_usize(SIGSET[*sig as usize % 7], us[*flag as usize % 2].clone(), *value).is_err() {
-                    res = "err";
+                match signal_hook::flag::register_usize(SIGSET[*sig as usize % 7], us[*flag as usize % 2].clone(), *value) {
+                    Ok(id) => ids.push(id),
+                    Err(_) => res = "err",
                 }
             }
             Op::RegShutdown { sig, status, cond } => {
-                if signal_hook::flag::register_conditional_shutdown(SIGSET[*sig as usize % 7], *status, bools[*cond as usize % 3].clone()).is_err() {
-                    res = "err";
+                match signal_hook::flag::register_conditional_shutdown(SIGSET[*sig as usize % 7], *status, bools[*cond as usize % 3].clone()) {
+                    Ok(id) => ids.push(id),
+                    Err(_) => res = "err",
                 }
             }
             Op::RegSpy { sig } => {
@@ -150,8 +171,14 @@ fn child(case: &C15Case, fd: i32) {
                         libc::write(OUT_FD.load(Ordering::SeqCst), buf.as_ptr() as *const _, buf.len());
                     })
                 };
-                if r.is_err() {
-                    res = "err";
+                match r {
+                    Ok(id) => ids.push(id),
+                    Err(_) => res = "err",
+                }
+            }
+            Op::Unreg { k } => {
+                if !ids.is_empty() {
+                    signal_hook::low_level::unregister(ids[*k as usize % ids.len()]);
                 }
             }
             Op::Store { flag, v } => bools[*flag as usize % 3].store(*v, Ordering::SeqCst),
@@ -161,14 +188,18 @@ fn child(case: &C15Case, fd: i32) {
                 if *to_helper && !helper_ids.is_empty() {
                     let (pt, tid, hi) = helper_ids[0];
                     let before = HELPER_TICKS[hi % 4].load(Ordering::SeqCst);
-                    unsafe { libc::pthread_kill(pt, SIGSET[*sig as usize % 7]) };
+                    let kr = unsafe { libc::pthread_kill(pt, SIGSET[*sig as usize % 7]) };
+                    if kr != 0 {
+                        emit(fd, &json!({"k": "infra", "what": format!("pthread_kill failed: {}", kr)}));
+                    }
                     let start = std::time::Instant::now();
-                    let path = format!("/proc/self/task/{}", tid);
+                    let pid = unsafe { libc::getpid() };
                     loop {
-                        if HELPER_TICKS[hi % 4].load(Ordering::SeqCst) >= before + 2 {
+                        if HELPER_TICKS[hi % 4].load(Ordering::SeqCst) > before {
                             break;
                         }
-                        if !std::path::Path::new(&path).exists() {
+                        let r = unsafe { libc::syscall(libc::SYS_tgkill, pid, tid, 0) };
+                        if r != 0 && std::io::Error::last_os_error().raw_os_error() == Some(libc::ESRCH) {
                             emit(fd, &json!({"k": "thread-gone", "step": i}));
                             helper_ids.remove(0);
                             break;
@@ -218,7 +249,9 @@ pub fn run_case(case: &C15Case) -> CaseReport {
         _ => {}
     }
     // ---- model
-    let mut actions: Vec<Vec<Act>> = vec![vec![]; 7];
+    let mut actions: Vec<Vec<(usize, Act)>> = vec![vec![]; 7];
+    let mut taken_model = [false; 7];
+    let mut nreg = 0usize;
     let mut bools = [false; 3];
     let mut us = [0usize; 2];
     let mut spies = 0usize;
@@ -230,17 +263,39 @@ pub fn run_case(case: &C15Case) -> CaseReport {
     let mut survived_after_disarm = false;
     let mut last_store_disarmed = false;
     let mut states: Vec<([bool; 3], [usize; 2])> = Vec::new();
+    let mut removed_any = false;
     'outer: for (i, op) in case.ops.iter().enumerate() {
         match op {
-            Op::RegFlag { sig, flag } => actions[*sig as usize % 7].push(Act::Flag(*flag as usize % 3)),
-            Op::RegUsize { sig, flag, value } => actions[*sig as usize % 7].push(Act::Usize(*flag as usize % 2, *value)),
+            Op::RegFlag { sig, flag } => {
+                taken_model[*sig as usize % 7] = true;
+                actions[*sig as usize % 7].push((nreg, Act::Flag(*flag as usize % 3)));
+                nreg += 1;
+            }
+            Op::RegUsize { sig, flag, value } => {
+                taken_model[*sig as usize % 7] = true;
+                actions[*sig as usize % 7].push((nreg, Act::Usize(*flag as usize % 2, *value)));
+                nreg += 1;
+            }
             Op::RegShutdown { sig, status, cond } => {
                 shutdown_registered = true;
-                actions[*sig as usize % 7].push(Act::Shutdown(*status, *cond as usize % 3))
+                taken_model[*sig as usize % 7] = true;
+                actions[*sig as usize % 7].push((nreg, Act::Shutdown(*status, *cond as usize % 3)));
+                nreg += 1;
             }
             Op::RegSpy { sig } => {
-                actions[*sig as usize % 7].push(Act::Spy(spies));
+                taken_model[*sig as usize % 7] = true;
+                actions[*sig as usize % 7].push((nreg, Act::Spy(spies)));
+                nreg += 1;
                 spies += 1;
+            }
+            Op::Unreg { k } => {
+                if nreg > 0 {
+                    let which = *k as usize % nreg;
+                    for l in actions.iter_mut() {
+                        l.retain(|(i, _)| *i != which);
+                    }
+                    removed_any = true;
+                }
             }
             Op::Store { flag, v } => {
                 bools[*flag as usize % 3] = *v;
@@ -251,8 +306,8 @@ pub fn run_case(case: &C15Case) -> CaseReport {
             }
             Op::StoreUsize { flag, v } => us[*flag as usize % 2] = *v,
             Op::Deliver { sig, .. } => {
-                let list = actions[*sig as usize % 7].clone();
-                if list.is_empty() {
+                let list: Vec<Act> = actions[*sig as usize % 7].iter().map(|x| x.1.clone()).collect();
+                if list.is_empty() && !taken_model[*sig as usize % 7] {
                     // never taken over: the harness would die of the default action - the child
                     // skips nothing, so do not generate: treat as death by the signal itself
                     death = Some((i, -(SIGSET[*sig as usize % 7])));
@@ -291,6 +346,9 @@ pub fn run_case(case: &C15Case) -> CaseReport {
     }
     if deliveries_with_shutdown >= 2 {
         rep.class("shutdown-delivered>=2");
+    }
+    if removed_any {
+        rep.class("unregister-between");
     }
     // ---- compare
     if recs.iter().any(|r| r["k"] == "infra") {
